@@ -35,7 +35,8 @@ ASSUMPTIONS = [
     "requests still queued in the request pool when the server is closed may be dropped (only executing requests are 'in flight')",
 ]
 
-KINDS = ["echo", "echo", "notify", "batch", "invalid", "boom", "slow"]
+KINDS = ["echo", "echo", "notify", "batch", "invalid", "boom", "slow", "boom-kw", "boomtype", "boomtype-kw", "echo-kw",
+         "abort-connect", "abort-headers", "abort-body", "abort-noread", "abort-noread-batch"]
 SERVERS = [("simple", None), ("pooled", None), ("pooled", 1), ("pooled", 2), ("pooled", 5)]
 
 
@@ -89,7 +90,13 @@ class Workload(object):
                 self.log.append(("boom", t))
             raise ValueError(t)
 
-        for f in (echo, mark, slow, boom):
+        def boomtype(t):
+            # fails with the exception class an argument mismatch also produces, after its side effect
+            with self.lock:
+                self.log.append(("boom", t))
+            return t + 1
+
+        for f in (echo, mark, slow, boom, boomtype):
             srv.register_function(f)
         self.thread = None
         if family == "tcp":
@@ -164,16 +171,71 @@ def stop_server(w, served, label):
             fail("C12/pool-workers-alive", "request-pool workers still alive after server_close(): %r" % (alive,))
 
 
-def client_run(w, ci, kinds, errors, sent_marks, sent_echo, timeout=30):
+def raw_connect(w):
+    if w.family == "tcp":
+        return socket.create_connection(("127.0.0.1", w.server.socket.getsockname()[1]), timeout=10)
+    s = socket.socket(socket.AF_UNIX, socket.SOCK_STREAM)
+    s.connect(w.path)      # blocking: with a timeout a full backlog answers EAGAIN at once
+    s.settimeout(10)
+    return s
+
+
+def abort_request(w, k, tok):
+    """A client that goes away in the middle of an exchange: right after connecting, inside the
+    header block, inside the body, or with the whole request sent but without reading the answer
+    (the handler then writes to a closed connection).  Tokens start with 'abort': the call may or
+    may not have run."""
+    try:
+        s = raw_connect(w)
+    except OSError:
+        return
+    try:
+        if k == "abort-connect":
+            return
+        if k == "abort-headers":
+            s.sendall(b"POST / HTTP/1.1\r\nHost: x\r\nContent-Le")
+            return
+        if k == "abort-noread-batch":
+            body = json.dumps([{"jsonrpc": "2.0", "method": "slow", "params": ["abort-" + tok, 15], "id": i} for i in range(3)]).encode("utf-8")
+        else:
+            body = json.dumps({"jsonrpc": "2.0", "method": "slow", "params": ["abort-" + tok + "x" * 70000, 15], "id": 1}).encode("utf-8")
+        head = ("POST / HTTP/1.1\r\nHost: x\r\nContent-Type: application/json-rpc\r\nContent-Length: %d\r\n\r\n" % len(body)).encode("ascii")
+        if k == "abort-body":
+            s.sendall(head + body[:len(body) // 2])
+        else:
+            s.sendall(head + body)
+    except OSError:
+        pass     # the misbehaving client's own trouble is not the server's
+    finally:
+        s.close()
+
+
+def client_run(w, ci, kinds, errors, sent_marks, sent_echo, timeout=30, sent_boom=None):
     from jsonrpclib import jsonrpc as J
 
-    socket_timeout = timeout
+    sent_boom = sent_boom if sent_boom is not None else []
     p = J.ServerProxy(w.url)
     try:
         for j, k in enumerate(kinds):
             tok = "c%d-r%d-%d" % (ci, j, os.getpid())
             try:
-                if k in ("echo", "slow"):
+                if k.startswith("abort"):
+                    abort_request(w, k, tok)
+                elif k in ("boom-kw", "boomtype", "boomtype-kw"):
+                    sent_boom.append(tok)
+                    m = getattr(p, k.split("-")[0])
+                    try:
+                        m(t=tok) if k.endswith("-kw") else m(tok)
+                        errors.append(("C12/crosstalk", "failing method returned for %r" % tok))
+                    except J.ProtocolError as ex:
+                        if k == "boom-kw" and tok not in str(ex):
+                            errors.append(("C12/crosstalk", "error for %r carries another request's text: %s" % (tok, ex)))
+                elif k == "echo-kw":
+                    sent_echo.append(tok)
+                    r = p.echo(t=tok)
+                    if r != tok:
+                        errors.append(("C12/crosstalk", "client %d sent %r and received %r" % (ci, tok, r)))
+                elif k in ("echo", "slow"):
                     sent_echo.append(tok)
                     r = getattr(p, k)(tok)
                     if r != tok:
@@ -198,6 +260,7 @@ def client_run(w, ci, kinds, errors, sent_marks, sent_echo, timeout=30):
                     if not isinstance(out, dict) or out.get("error", {}).get("code") != -32700:
                         errors.append(("C12/invalid-body-reply", "invalid body answered %r" % (out,)))
                 else:
+                    sent_boom.append(tok)
                     try:
                         p.boom(tok)
                         errors.append(("C12/crosstalk", "failing method returned for %r" % tok))
@@ -227,33 +290,51 @@ def oracle_workload(case):
     except Hang:
         raise Skip()
     w.serve()
-    errors, sent_marks, sent_echo = [], [], []
-    threads = [threading.Thread(target=client_run, args=(w, i, kinds, errors, sent_marks, sent_echo), daemon=True) for i, kinds in enumerate(case["clients"])]
+    errors, sent_marks, sent_echo, sent_boom = [], [], [], []
+    threads = [threading.Thread(target=client_run, args=(w, i, kinds, errors, sent_marks, sent_echo, 30, sent_boom), daemon=True)
+               for i, kinds in enumerate(case["clients"])]
     for t in threads:
         t.start()
-    for t in threads:
-        t.join(60)
+    deadline = time.time() + 40
+    while time.time() < deadline and any(t.is_alive() for t in threads):
+        time.sleep(0.005)
+        if not w.thread.is_alive():
+            # nobody serves any more: what is still waiting will wait for ever
+            deadline = min(deadline, time.time() + 1.5)
     hung = [i for i, t in enumerate(threads) if t.is_alive()]
+    serving = w.thread is not None and w.thread.is_alive()
     # give pooled notifications (inline anyway) a moment; then stop
     stop_server(w, True, "after-workload")
     if hung:
-        fail("C12/client-hangs", "clients %r did not finish within 60 s" % (hung,))
+        if not serving:
+            fail("C12/serve-forever-died", "serve_forever ended by itself during the workload; clients %r were never answered" % (hung,))
+        fail("C12/client-hangs", "clients %r did not finish within 40 s" % (hung,))
     if errors:
         sig, msg = errors[0]
         fail(sig, msg, {"errors": errors[:5]})
-    echoes = [t for k, t in w.log if k == "echo"]
-    marks = sorted(t for k, t in w.log if k == "mark")
-    if sorted(echoes) != sorted(sent_echo):
+    if not serving:
+        fail("C12/serve-forever-died", "serve_forever ended by itself during the workload")
+    echoes = [repr(t) for k, t in w.log if k == "echo" and not (isinstance(t, str) and t.startswith("abort"))]
+    marks = sorted(repr(t) for k, t in w.log if k == "mark")
+    booms = sorted(repr(t) for k, t in w.log if k == "boom")
+    if booms != sorted(repr(t) for t in sent_boom):
+        dup = len(booms) > len(sent_boom)
+        fail("C12/duplicated-execution" if dup else "C12/lost-execution", "server executed failing methods %d times for %d calls sent" % (len(booms), len(sent_boom)))
+    if sorted(echoes) != sorted(repr(t) for t in sent_echo):
         dup = len(set(echoes)) != len(echoes)
         fail("C12/duplicated-execution" if dup else "C12/lost-execution", "server executed echo tokens %d times for %d sent" % (len(echoes), len(sent_echo)))
-    if marks != sorted(sent_marks):
+    if marks != sorted(repr(t) for t in sent_marks):
         fail("C12/notification-executions", "server executed %d notifications for %d sent" % (len(marks), len(sent_marks)))
     kinds = set(k for c in case["clients"] for k in c)
     nt = len(case["clients"]) >= 2 and len(kinds) >= 2
     classes = ["workload", "server:%s%s" % (case["kind"], "" if case["pool"] is None else "(%d)" % case["pool"]), "family:" + case["family"],
                "clients:%d" % min(len(case["clients"]), 8)]
-    if "invalid" in kinds or "boom" in kinds:
+    if "invalid" in kinds or any(k.startswith("boom") for k in kinds):
         classes.append("bad-request-then-good")
+    if any(k.startswith("abort") for k in kinds):
+        classes.append("client-goes-away")
+    if any(k.endswith("-kw") for k in kinds):
+        classes.append("by-name-call")
     return Info(nt=nt, classes=classes, sample={"server": classes[1], "family": case["family"], "clients": case["clients"]})
 
 
